@@ -88,6 +88,14 @@ class DecodeState:
             if bit_length == 0:
                 return base_data_type.python_type()
 
+        if bit_length > 64 and base_data_type in (DataType.A_INT32, DataType.A_UINT32):
+            # the accelerated version of bitstruct does not support
+            # integers of more than 64 bits. (this can e.g. happen
+            # for PARAM-LENGTH-INFO-TYPE objects if the PDU contains
+            # an excessive value for the length key)
+            odxraise(f"Integer objects must not exhibit more than 64 bits (is: {bit_length})",
+                     DecodeError)
+
         byte_length = (bit_length + self.cursor_bit_position + 7) // 8
         if self.cursor_byte_position + byte_length > len(self.coded_message):
             raise DecodeError(f"Expected a longer message.")
